@@ -198,3 +198,46 @@ func sizeClass(n int) string {
 	}
 	return ">64K"
 }
+
+// C15Transport: after store writes were cut short (file-size limit) the transport never
+// serves a truncated or spliced stored response, and never panics.
+func C15Transport(o *world.Obs) *Result {
+	r := NewResult()
+	fired := 0
+	for _, op := range o.Ops {
+		if op.Fault == "rlimit" {
+			fired++
+			if op.Err != "" {
+				r.Label("write-cut")
+			} else {
+				r.Label("write-fit-in-limit")
+			}
+		}
+	}
+	r.NonTrivial = fired > 0
+	for _, ex := range o.Exchanges {
+		if ex.Panic != "" {
+			r.Fail("C15", "panic-after-cut-write", ex.Idx, "panic: %s", firstLine(ex.Panic))
+			continue
+		}
+		if ex.Resp == nil {
+			continue
+		}
+		src, fromStore := o.FromStore(ex)
+		if !fromStore {
+			// own reply: must be complete
+			for _, c := range o.FgCalls(ex) {
+				if c.Kind == "resp" && world.TokOf(ex.Resp.Header) == c.Serial && c.FailAt == 0 && !bytes.Equal(ex.Resp.Body, c.Body) {
+					r.Fail("C15", "origin-reply-damaged", ex.Idx, "origin reply forwarded with %d of %d bytes; %s", len(ex.Resp.Body), len(c.Body), SummarizeExchange(o, ex))
+				}
+			}
+			continue
+		}
+		r.Label("from-store-after-cut")
+		if ex.Resp.Status != src.Status || !bytes.Equal(ex.Resp.Body, src.Body) || ex.Resp.BodyErr != "" {
+			r.Fail("C15", "truncated-response-served", ex.Idx, "stored reply s%d served with status %d and %d of %d body bytes (first difference at %d, read error %q) after a cut write; %s",
+				src.Serial, ex.Resp.Status, len(ex.Resp.Body), len(src.Body), firstDiff(ex.Resp.Body, src.Body), ex.Resp.BodyErr, SummarizeExchange(o, ex))
+		}
+	}
+	return r
+}
